@@ -372,16 +372,58 @@ def _use_index(ctx, lib, fn, item):
         sw = switches_on(S.root, lambda d: d[0] == "bin" and d[1] == "Eq" and
                          ((m(P(F(Par(1), "head_idx")), d[2]) and m(idx, d[3])) or (m(idx, d[2]) and m(P(F(Par(1), "head_idx")), d[3]))))
         okh = len(sw) == 1 and b.edge_guards((sw[0][0], bool_arms(sw[0][1])[0]), hw[0]["bb"])
-        v = hw[0]["val"]
-        flt = S.keyed(lambda k: core.callee_base(k) == "core::option::Option::filter")
-        okv = len(flt) == 1 and flt[0]["args"][0][0] == "agg" and m(n, dict(flt[0]["args"][0][3])["0"])
-        if okv:
-            cl = flt[0]["args"][1]
-            cr = S.fv.closure_ret(cl[1]) if cl[0] == "closure" else None
-            okv = cr is not None and cr[0] == "bin" and cr[1] == "Ne" and any(x[0] == "param" and x[1] == 2 for x in (cr[2], cr[3]))
-        okh = okh and okv
+        okh = okh and _some_unless(S, b, hw[0]["val"], lambda t: m(n, t), lambda t: m(idx, t))
     ctx.check(okh, "H-USE", b, "head-advances", b.span,
               "if the head itself is used the head moves to its successor (or the list becomes empty when it was the only slot)")
+
+
+def _some_unless(S, b, val, n_ok, other_ok):
+    """val is `Some(n)` when n != other and `None` when n == other, in any of the source forms
+         Some(n).filter(|&x| x != other)            (combinator)
+         if n != other { Some(n) } else { None }    (either polarity / arm order; match on the comparison)
+         (n != other).then_some(n) / .then(|| n)"""
+    v = val
+    if v[0] == "call" and isinstance(v[1], str):
+        base = core.callee_base(v[1])
+        if base == "core::option::Option::filter" and len(v[2]) == 2:
+            a0, cl = v[2]
+            if not (a0[0] == "agg" and a0[2] == "Some" and n_ok(dict(a0[3])["0"])):
+                return False
+            cr = S.fv.closure_ret(cl[1]) if cl[0] == "closure" else None
+            return cr is not None and cr[0] == "bin" and cr[1] == "Ne" and (other_ok(cr[2]) or other_ok(cr[3]))
+        if base in ("core::bool::then_some", "core::bool::then") and len(v[2]) == 2:
+            c, x = v[2]
+            if x[0] == "closure":
+                x = S.fv.closure_ret(x[1])
+            return x is not None and n_ok(x) and c[0] == "bin" and c[1] == "Ne" and \
+                ((n_ok(c[2]) and other_ok(c[3])) or (n_ok(c[3]) and other_ok(c[2])))
+        return False
+    ms = members(v)
+    somes = [x for x in ms if x[0] == "agg" and x[2] == "Some"]
+    nones = [x for x in ms if x[0] == "agg" and x[2] == "None"]
+    if len(ms) != 2 or len(somes) != 1 or len(nones) != 1 or not n_ok(dict(somes[0][3])["0"]):
+        return False
+    sw = switches_on(S.root, lambda d: d[0] == "bin" and d[1] in ("Eq", "Ne") and
+                     ((n_ok(d[2]) and other_ok(d[3])) or (n_ok(d[3]) and other_ok(d[2]))))
+    if len(sw) != 1:
+        return False
+    sbb, stj, d = sw[0]
+    tt, ff = bool_arms(stj)
+    ne_arm, eq_arm = (tt, ff) if d[1] == "Ne" else (ff, tt)
+    sdef = {}
+    ndef = {}
+    for bi, si, st in b.stmts():
+        if st["k"] == "assign" and st["rv"]["k"] == "aggregate" and not st["lhs"]["proj"]:
+            var = st["rv"].get("variant")
+            if var == "Some" and n_ok(S.root.op(st["rv"]["ops"][0])):
+                sdef.setdefault(st["lhs"]["local"], []).append(bi)
+            elif var == "None":
+                ndef.setdefault(st["lhs"]["local"], []).append(bi)
+    for loc, sb in sdef.items():
+        nb = ndef.get(loc)
+        if nb and all(b.edge_guards((sbb, ne_arm), x) for x in sb) and all(b.edge_guards((sbb, eq_arm), x) for x in nb):
+            return True
+    return False
 
 
 def _vacant(ctx, lib, fn, item):
@@ -397,16 +439,12 @@ def _vacant(ctx, lib, fn, item):
     ctx.check(len(somes) == 1 and m(cur, dict(somes[0][3])["0"]), "H-VAC", b, "yields-current", b.span,
               "the vacant iterator yields the current index; returns %s" % show(ret))
     ws = [s for s in S.stores if m(F(Par(1), "idx"), s["tgt"])]
-    flt = S.keyed(lambda k: core.callee_base(k) == "core::option::Option::filter")
-    ok = len(ws) == 1 and len(flt) == 1
-    if ok:
-        a0 = flt[0]["args"][0]
-        getn = [x for x in walk(a0) if x[0] == "call" and x[1] == LI + "::next"]
-        ok = a0[0] == "agg" and len(getn) == 1 and any(m(cur, y) for y in walk(getn[0]))
-        cl = flt[0]["args"][1]
-        cr = S.fv.closure_ret(cl[1]) if cl[0] == "closure" else None
-        ok = ok and cr is not None and cr[0] == "bin" and cr[1] == "Ne" and any(
-            any(y[0] == "field" and y[3] == "head_idx" for y in walk(x)) for x in (cr[2], cr[3]))
+    def is_next(t):
+        return t[0] == "call" and t[1] == LI + "::next" and any(m(cur, y) for y in walk(t))
+
+    def is_head(t):
+        return any(y[0] == "field" and y[3] == "head_idx" for y in walk(t))
+    ok = len(ws) == 1 and _some_unless(S, b, ws[0]["val"], is_next, is_head)
     ctx.check(ok, "H-VAC", b, "advance-until-head", b.span,
               "the iterator advances to next(current) and stops when it is back at the list head (one full turn of the ring)")
     vb = fn["vacant_iter"]
